@@ -786,7 +786,7 @@ def main(tier, replay=None):
             if d["field"] in byname:
                 cases.append(Case(d["op"], byname[d["field"]], d["stream"], d["args"], d.get("meta", {}), d.get("class", "")))
     impl_in = "".join(c.line() + "\n" for c in cases)
-    rc, iout, ierr = run_isolated(himpl, cases)
+    rc, iout, ierr = run_isolated(himpl, cases, 60 if tier == "quick" else 600)
     if len(iout) != len(cases):
         chk.broke("implementation harness failed (rc=%s, %d/%d lines)" % (rc, len(iout), len(cases)), ierr)
         return chk.finish()
@@ -812,7 +812,9 @@ def main(tier, replay=None):
         chk.count((c.op, c.F.name, tuple(c.args), tuple(c.stream[:8])), nontrivial=nontrivial)
         if i % 211 == 0:
             chk.sample({"case": c.describe(), "impl": iout[i]})
-        v = verdict(c, payload) if not payload.startswith("CRASH") else ("a result", "the call crashed: " + payload)
+        if payload.startswith("SKIPPED"):
+            continue
+        v = verdict(c, payload) if not payload.startswith(("CRASH", "HANG")) else ("a result", "the call crashed or hung: " + payload)
         if v is not None and v[0] == "ORACLE":
             chk.broke("python specification inconsistent on %s: %s" % (c.line(), v[1]))
             continue
@@ -885,27 +887,32 @@ def main(tier, replay=None):
     return chk.finish()
 
 
-def run_isolated(himpl, cases):
-    """run the cases in one process; cases flagged `isolate` get a process of their own (a known defect corrupts the heap
-    there); when a process dies (a crash inside the library) record CRASH for the case it died on and continue"""
+def run_isolated(himpl, cases, tmo=90):
+    """run the cases in one process; cases flagged `isolate` get a process of their own; when a process dies (a crash
+    inside the library) or does not answer within `tmo` seconds (a loop that draws no random value), record CRASH / HANG
+    for the case it stopped on and continue with the rest (at most 4 such restarts, then the rest is SKIPPED)"""
     out = [None] * len(cases)
     err_all = ""
     rc = 0
     for i, c in enumerate(cases):
         if c.meta.get("isolate"):
-            r, lines, err = vf.run_lines(himpl, c.line() + "\n", timeout=120)
-            out[i] = lines[0] if lines else "CRASH rc=%s" % r
+            r, lines, err = vf.run_lines(himpl, c.line() + "\n", timeout=tmo)
+            out[i] = lines[0] if lines else ("HANG" if r == 124 else "CRASH rc=%s" % r)
     rest = [i for i in range(len(cases)) if out[i] is None]
-    guard = 0
-    while rest and guard < 200:
-        guard += 1
-        rc, lines, err = vf.run_lines(himpl, "".join(cases[i].line() + "\n" for i in rest), timeout=1500)
+    stops = 0
+    while rest:
+        rc, lines, err = vf.run_lines(himpl, "".join(cases[i].line() + "\n" for i in rest), timeout=tmo)
+        lines = [l for l in lines if re.search(r"#\d+\s*$", l)]          # drop a partial last line
         for i, l in zip(rest, lines):
             out[i] = l
         if len(lines) >= len(rest):
-            rest = []
             break
         err_all += err[-500:]
-        out[rest[len(lines)]] = "CRASH rc=%s" % rc
+        out[rest[len(lines)]] = "HANG (no answer within %d s)" % tmo if rc == 124 else "CRASH rc=%s" % rc
         rest = rest[len(lines) + 1:]
-    return rc, [o for o in out if o is not None], err_all
+        stops += 1
+        if stops >= 4:
+            for i in rest:
+                out[i] = "SKIPPED"
+            break
+    return rc, out, err_all
